@@ -308,6 +308,7 @@ proof fn theorem_normal_form(f: Seq<Seq<char>>)
 //@unit src/text.rs fn clean
 //@rule R14
 //@rule subst(char.str.trim()=>vt_trim(char.str))
+#[verifier::loop_isolation(false)]
 pub fn clean(s: &str, use_graphemes: bool) -> (res: String)
     requires nomix(chars_of(s, use_graphemes)),
     ensures res@ == flat(normal_form(chars_of(s, use_graphemes))),
